@@ -151,11 +151,16 @@ func convertSchema(s string, t *VirtualTable) error {
 		return fmt.Errorf("sqlite vtable primary key cannot be composite")
 	}
 	columnMap := map[string]struct{}{}
+	// SQLite tells column names apart without regard to ASCII case; what it
+	// would refuse when the table is declared is refused here, before the
+	// storage is opened (which may commit a merge).
+	declared := map[string]struct{}{}
 	for i := range schema.Columns {
 		name := schema.Columns[i].Name
-		if _, ok := columnMap[name]; ok {
+		if _, ok := declared[asciiLower(name)]; ok {
 			return fmt.Errorf("duplicate column: %s", name)
 		}
+		declared[asciiLower(name)] = struct{}{}
 		columnMap[schema.Columns[i].Name] = struct{}{}
 	}
 	t.usesRowID = true
@@ -166,6 +171,9 @@ func convertSchema(s string, t *VirtualTable) error {
 			return fmt.Errorf("no column definition for key: %s", keyColName)
 		}
 		t.usesRowID = false
+	}
+	if _, ok := declared["_rowid_"]; ok && t.usesRowID {
+		return fmt.Errorf("duplicate column: _rowid_ is the hidden key of a table without primary key")
 	}
 	s = "CREATE TABLE x("
 	if t.usesRowID {
@@ -206,6 +214,15 @@ func convertSchema(s string, t *VirtualTable) error {
 		t.ColumnNameByIndex[i] = col.Name
 	}
 	return nil
+}
+
+func asciiLower(s string) string {
+	return strings.Map(func(r rune) rune {
+		if r >= 'A' && r <= 'Z' {
+			return r + ('a' - 'A')
+		}
+		return r
+	}, s)
 }
 
 func parseSchema(a string) (*sqlTypes.Schema, error) {
